@@ -923,7 +923,7 @@ impl IsoTime {
 
 // ==== `IsoDateTime` specific utility functions ====
 
-const MAX_EPOCH_DAYS: i32 = 10i32.pow(8) + 1;
+pub(crate) const MAX_EPOCH_DAYS: i32 = 10i32.pow(8) + 1;
 
 #[inline]
 /// Utility function to determine if a `DateTime`'s components create a `DateTime` within valid limits
